@@ -44,7 +44,14 @@ class C05(Prop):
                     path, _v = rng.choice(nodes)
                     rc = rng.random() < 0.4
                     kind = rng.choice(["del", "pop"])
-                    ops.append([kind, X.render(cur, path, rng), rc] + ([rng.choice(["D", "D", "none", "same"])] if kind == "pop" else []))
+                    xp = X.render(cur, path, rng)
+                    if isinstance(path[-1], str) and rng.random() < 0.2:
+                        # a spelling lookup accepts as well: the last step carries a text() condition that the node meets
+                        if isinstance(_v, str) and _v.isalnum() and _v.isascii():
+                            xp += rng.choice(["[text()=%s]", "[text()='%s']", "[text()!=zz%s]"]) % _v
+                        elif isinstance(_v, int) and not isinstance(_v, bool):
+                            xp += "[text()=%d]" % _v
+                    ops.append([kind, xp, rc] + ([rng.choice(["D", "D", "none", "same"])] if kind == "pop" else []))
                     metas.append({"path": list(path)})
                     cur = X.ref_del(cur, path, rc)
                 elif nodes and k < 0.8:
@@ -147,6 +154,27 @@ class C05(Prop):
                 metas.append({"path": list(p)})
                 cur = X.ref_del(cur, p, rc)
             out.append({"stream": "ops", "tag": "through-created:%d" % len(ops), "input": {"tree": t, "mode": mode, "ops": ops, "metas": metas}})
+        # a dictionary that holds a literal key spelled like a path ('text/html', 'item[0]'): delete / pop of that string
+        # address what lookup addresses for it - the nested node if there is one, nothing otherwise - never the literal entry
+        for _ in range(60 if tier == "quick" else 1500):
+            t = X.gen_tree(rng, 2, root="dict")
+            lit, nested_path, nested = rng.choice([("text/html", ["text", "html"], {"text": {"html": 2, "z": 3}}),
+                                                   ("item[0]", ["item", 0], {"item": [5, 6]}),
+                                                   ("a/b/c", ["a", "b", "c"], {"a": {"b": {"c": "x"}}}),
+                                                   ("m[1][0]", ["m", 1, 0], {"m": [[1], [2, 3]]})])
+            t = {k: v for k, v in t.items() if k not in nested}
+            t[lit] = rng.choice([1, "lit", None])
+            both = rng.random() < 0.5
+            if both:
+                t.update(copy.deepcopy(nested))
+                if rng.random() < 0.5:
+                    t = dict(reversed(list(t.items())))
+            kind = rng.choice(["del", "pop"])
+            rc = rng.random() < 0.3
+            op = [kind, rng.choice(["", "", "/"]) + lit, rc] + (["D"] if kind == "pop" else [])
+            meta = {"path": nested_path} if both else {"missing": True}
+            out.append({"stream": "ops", "tag": "literal-path-key:" + ("both" if both else "only"),
+                        "input": {"tree": t, "mode": rng.choice(["wrap", "json"]), "ops": [op], "metas": [meta]}})
         self._exh = None
         if tier == "thorough":
             n_trees = n_cases = 0
